@@ -69,7 +69,7 @@ theorem benign_mono {t t' : Nat} {f : Frame (Loc α) α} (h : Benign t f) (hle :
 macro "exec" n:num : tactic =>
   `(tactic| (refine ⟨$n, ?_⟩; simp [advance, opStep, machine, enter, step, Ph.onIn, Ph.onOut, Inv, isFinal, *]))
 
-theorem inv_step (max : Nat) (s s' : Sys St (Loc α) α α) (h : Inv max s) (hs : EnvStep (machine α max) s s') :
+theorem inv_step (max : Nat) (s s' : Sys St (Loc α) α α) (m : Move α) (h : Inv max s) (hs : EnvStep (machine α max) m s s') :
     ∃ n, Inv max (advance (machine α max) n s') := by
   obtain ⟨hp, hb, hle, hoth, hoths, hm⟩ := h
   cases hs with
